@@ -172,6 +172,25 @@ var ruleEsc = &Rule{
 					}
 				}
 			}
+			// table-driven form: a rune→rune map literal (local, or a package
+			// variable filled by the initialiser) looked up with the escape
+			// letter, the result written with WriteRune
+			for _, b := range fn.Blocks {
+				for _, ins := range b.Instrs {
+					lk, ok := ins.(*ssa.Lookup)
+					if !ok {
+						continue
+					}
+					if !reachesWriteRune(lk, map[ssa.Value]bool{}, 0) {
+						continue
+					}
+					for k, v := range runeMapLiteral(p, lk.X) {
+						if k > 32 && k < 127 {
+							m[k] = v
+						}
+					}
+				}
+			}
 			if len(m) >= 4 && len(m) > len(lexMap) {
 				lexMap, special, escFn = m, sp, fn
 			}
@@ -258,13 +277,30 @@ var ruleParen = &Rule{
 			// sink: the invoke of writeTo on the next node
 			tx, rows := p.extractTable(fn, nil, &TableCfg{Sink: func(ins ssa.Instruction) []ssa.Value {
 				c, ok := ins.(*ssa.Call)
-				if !ok || !c.Call.IsInvoke() || c.Call.Method.Name() != "writeTo" {
+				if !ok {
 					return nil
 				}
-				// receiver is the result of Next()
-				if rc, ok := c.Call.Value.(*ssa.Call); ok {
-					if sc := rc.Call.StaticCallee(); sc != nil && sc.Name() == "Next" {
+				isNext := func(v ssa.Value) bool {
+					rc, ok := v.(*ssa.Call)
+					if !ok {
+						return false
+					}
+					sc := rc.Call.StaticCallee()
+					return sc != nil && sc.Name() == "Next"
+				}
+				if c.Call.IsInvoke() && c.Call.Method.Name() == "writeTo" {
+					// receiver is the result of Next()
+					if isNext(c.Call.Value) {
 						return []ssa.Value{c.Call.Value}
+					}
+					return nil
+				}
+				// a helper that prints the node it is handed: f(buf, n.Next())
+				if sc := c.Call.StaticCallee(); sc != nil && fnPkgPath(sc) == pkgAST && sc.Blocks != nil {
+					for i, a := range c.Call.Args {
+						if isNext(a) && i < len(sc.Params) && printsParam(sc, sc.Params[i]) {
+							return []ssa.Value{a}
+						}
 					}
 				}
 				return nil
@@ -466,4 +502,107 @@ var ruleMarshal = &Rule{
 
 func init() {
 	register(ruleEsc, ruleParen, ruleMarshal)
+}
+
+// printsParam: fn invokes writeTo on its parameter q (and does nothing else
+// with a node): a "print the rest of the chain" helper.
+func printsParam(fn *ssa.Function, q *ssa.Parameter) bool {
+	for _, b := range fn.Blocks {
+		for _, ins := range b.Instrs {
+			if c, ok := ins.(*ssa.Call); ok && c.Call.IsInvoke() && c.Call.Method.Name() == "writeTo" && c.Call.Value == ssa.Value(q) {
+				return true
+			}
+		}
+	}
+	return false
+}
+
+// reachesWriteRune: the value (through extracts and phis) is an argument of
+// (*strings.Builder).WriteRune.
+func reachesWriteRune(v ssa.Value, seen map[ssa.Value]bool, depth int) bool {
+	if depth > 6 || seen[v] {
+		return false
+	}
+	seen[v] = true
+	refs := v.Referrers()
+	if refs == nil {
+		return false
+	}
+	for _, r := range *refs {
+		switch x := r.(type) {
+		case *ssa.Call:
+			if calleeQualified(&x.Call) == "strings.WriteRune" {
+				return true
+			}
+		case *ssa.Extract:
+			if x.Index == 0 && reachesWriteRune(x, seen, depth+1) {
+				return true
+			}
+		case *ssa.Phi:
+			if reachesWriteRune(x, seen, depth+1) {
+				return true
+			}
+		case *ssa.Convert:
+			if reachesWriteRune(x, seen, depth+1) {
+				return true
+			}
+		}
+	}
+	return false
+}
+
+// runeMapLiteral: the constant entries of the map value m (a MakeMap in the
+// same function, or a package variable assigned one MakeMap by the package
+// initialiser and never written elsewhere).
+func runeMapLiteral(p *Prog, m ssa.Value) map[int64]int64 {
+	out := map[int64]int64{}
+	var mk *ssa.MakeMap
+	switch x := m.(type) {
+	case *ssa.MakeMap:
+		mk = x
+	case *ssa.UnOp:
+		g, ok := x.X.(*ssa.Global)
+		if !ok {
+			return out
+		}
+		n := 0
+		for fn := range p.AllFns {
+			if !inModule(fn) {
+				continue
+			}
+			for _, b := range fn.Blocks {
+				for _, ins := range b.Instrs {
+					if st, ok := ins.(*ssa.Store); ok && st.Addr == ssa.Value(g) {
+						n++
+						if mm, ok := st.Val.(*ssa.MakeMap); ok && fn.Name() == "init" {
+							mk = mm
+						}
+					}
+				}
+			}
+		}
+		if n != 1 {
+			return out
+		}
+	}
+	if mk == nil {
+		return out
+	}
+	for _, r := range *mk.Referrers() {
+		switch u := r.(type) {
+		case *ssa.MapUpdate:
+			k, ok1 := constInt(u.Key)
+			v, ok2 := constInt(u.Value)
+			if !ok1 || !ok2 {
+				return map[int64]int64{} // a non-constant entry: not a literal table
+			}
+			out[k] = v
+		case *ssa.Lookup, *ssa.Store, *ssa.DebugRef:
+		default:
+			if _, isCall := r.(ssa.CallInstruction); isCall {
+				return map[int64]int64{} // escapes
+			}
+		}
+	}
+	return out
 }
